@@ -228,7 +228,7 @@ fn gen_severity_scans(tier: &str, seed: u64, out: &mut dyn FnMut(Value)) {
     use crate::dsl::{Form, Lit, Operand, SRule};
     use crate::event::DynEvent;
     let mut rng = Rng::new(seed ^ 0xc20);
-    let n = if tier == "thorough" { 3000 } else { 300 };
+    let n = if tier == "thorough" { 15000 } else { 1200 };
     for _ in 0..n {
         let k = 2 + rng.below(3);
         let rules: Vec<SRule> = (0..k)
@@ -250,7 +250,7 @@ pub fn gen(tier: &str, seed: u64, out: &mut dyn FnMut(Value)) {
     gen_severity_scans(tier, seed, out);
     let mut rng = Rng::new(seed);
     let thorough = tier == "thorough";
-    let n = if thorough { 30000 } else { 3000 };
+    let n = if thorough { 150000 } else { 12000 };
     for _ in 0..n {
         let e = valid_doc(&mut rng);
         out(case(to_tree(&e), "valid document"));
